@@ -375,6 +375,7 @@ theorem container_in_namespace (u : Option String) (c : LContainer) (x : XmlNode
         split
         · trivial
         · refine ⟨node_in_namespace u _ _ _ _ ⟨?_, trivial⟩, trivial⟩
+          unfold writeRestrictions
           split
           · exact criterion_in_namespace u _
           · exact node_in_namespace u _ _ _ _ (criteria_list_in_namespace u _)
